@@ -342,7 +342,9 @@ def event_of(st, exc, db, rdb, answers=None, source=None, current=None):
         e["k"] = st["k"]
     elif op == "probe":
         pass
-    elif op in ("q", "qs"):
+    elif "s" in st and op not in ("q", "qs"):
+        e["s"] = enc_set(st["s"])
+    if op in ("q", "qs") or current is not None:
         a = answers
         if a is None:
             a = dict(pc=0, tc=0, qn=[], qtags=[], qpkgs=[], qcard=[], qhasp=[], qhast=[], itp=[], itt=[], itpt=[], ittp=[])
@@ -352,8 +354,6 @@ def event_of(st, exc, db, rdb, answers=None, source=None, current=None):
                  itp=[enc(n) for n in a["itp"]], itt=[enc(n) for n in a["itt"]],
                  itpt=[[enc(k), enc_set(v)] for k, v in a["itpt"]],
                  ittp=[[enc(k), enc_set(v)] for k, v in a["ittp"]])
-    elif "s" in st:
-        e["s"] = enc_set(st["s"])
     return e
 
 
@@ -374,8 +374,15 @@ def execute(plan):
                 continue
             answers, exc = ask(srcobj, st["names"], st.get("alias", False))
         elif st.get("keep"):                   # a derivation that is observed but does not become current
-            answers = None
             shown, exc = do_call(cur, st)
+            answers = None
+            if not exc:
+                try:
+                    probe = sorted(shown.db)[:3] + sorted(shown.rdb)[:3] + list(st.get("names", ()))[:12]
+                except Exception:
+                    probe = []
+                answers, qexc = ask(shown, probe, st.get("alias", False))
+                exc = exc or ("queries:" + qexc if qexc else "")
         else:
             answers = None
             before = cur
@@ -653,9 +660,10 @@ def with_queries(plan, names, every=True):
     is handed to TLC)"""
     out = []
     for i, st in enumerate(plan):
-        out.append(st)
+        out.append(dict(st, names=list(names)) if st.get("keep") else st)
         if every or i == len(plan) - 1:
-            for al in (False, True):         # snake_case methods and their deprecated aliases
+            # snake_case methods and their deprecated aliases: both after the last call, alternating before
+            for al in ((False, True) if i == len(plan) - 1 else (i % 2 == 0,)):
                 out.append({"op": "q", "names": list(names), "alias": al})
                 out.append({"op": "qs", "names": list(names), "alias": al})          # skipped while nothing was copied
     return out
@@ -716,9 +724,10 @@ def compare_big(cur, s, table, bc, rng, who=""):
         return "%stags (keys of rdb): %d, model (blown up) %d; e.g. %s" % (who, len(rdb), len(T), short(sorted(set(rdb) ^ T)[:3], 200))
     alias = rng.random() < 0.5
     try:
-        if meth(cur, "package_count", alias)() != len(P) or meth(cur, "tag_count", alias)() != len(T):
-            return "%spackage_count()/tag_count() = %r/%r, model (blown up) %d/%d" % (
-                who, cur.package_count(), cur.tag_count(), len(P), len(T))
+        pc, tc = meth(cur, "package_count", alias)(), meth(cur, "tag_count", alias)()
+        if pc != len(P) or tc != len(T):
+            return "%s%spackage_count()/tag_count() = %r/%r, model (blown up) %d/%d" % (
+                who, "(through the deprecated aliases) " if alias else "", pc, tc, len(P), len(T))
         for p in s["P"]:
             want = bc.names(tags_of[tuple(p)])
             for c in bc.blow(p):
@@ -1170,7 +1179,7 @@ def run(ctx):
     f_rv = bg("MC_Debtags_rview.cfg", 1)        # negative control: remembered reverse view survives read() -> Refines violated
     f_ab = bg("MC_Debtags_alias.cfg", 1)        # negative control: alias bound to the first object -> AliasQueriesAgree violated
     if quick:
-        f_closed = bg("MC_Debtags.cfg", 4)                                         # 3 packages x 3 tags
+        f_closed = None            # the 3 x 3 closed configuration belongs to the thorough tier (budget)
         f_big = None
         g, tables, r_lts = load_lts(ctx, "MC_Debtags_lts_small.cfg")              # 2 packages x 3 tags
     else:
@@ -1262,7 +1271,10 @@ def run(ctx):
         if nviol[0] >= 5:
             break
         # thorough: the 33 000 restrict/filter transitions of the 3x3 LTS get one of the two forms each
-        reps = range(nconc) if quick or e["op"] not in ("restrict_p", "filter_t", "read_fails", "qread_fails") else (idx % 2,)
+        if e["op"] in ("restrict_p", "filter_t", "read_fails", "qread_fails"):
+            reps = (idx % 2,) if not quick else ((1,) if idx % 2 else (0, 1))
+        else:
+            reps = range(nconc)
         for c in reps:
             conc = concs[0] if c == 0 else concs[1 + (idx % nc)]
             path = paths[e["_f"]] + [e]
@@ -1292,7 +1304,7 @@ def run(ctx):
         describe(concretize_step(x, Conc(canonical=True), rng, [])) for x in paths[mid["_f"]] + [mid]))
 
     # 2b. random walks from DB() (long histories; queries checked after every call)
-    nwalks, wlen = (250, 12) if quick else (1200, 25)
+    nwalks, wlen = (160, 12) if quick else (1200, 25)
     w8 = {"insert": 6, "read": 2, "reverse": 3, "copy": 1, "facet": 3, "restrict_p": 1, "filter_t": 1,
           "read_fails": 2, "qread_fails": 2}
     for w in range(nwalks):
@@ -1336,7 +1348,7 @@ def run(ctx):
     design = join_design()
     pool.shutdown()
     ctx.extra["lts"] = {"states": len(g.states), "edges": len(g.edges), "tlc_wall_s": round(r_lts.wall, 1),
-                        "closed_3x3_states": design["closed"].distinct if "closed" in design else r_lts.distinct,
+                        "closed_3x3_states": design["closed"].distinct if "closed" in design else (None if quick else r_lts.distinct),
                         "closed_4x3_states": design["big"].distinct if "big" in design else None,
                         "retained_source_config_states": design["src"].distinct}
     ctx.extra["negative_control_spec"] = ["InsertNewTagStoresChars=TRUE -> TLC: invariant %s violated" % design["dev"].violated,
@@ -1352,9 +1364,12 @@ def run(ctx):
         okids = [i for i in range(1, len(traces) + 1) if i not in set(rejected)]
         hits += count_known(ctx, devsteps, okids)
         for i in okids:
-            if not devsteps.get(i):
-                raise core.MachineryError("replay diverged from the LTS (%s) but TraceDebtags accepts the same history "
-                                          "without deviation: harness and specification disagree" % diverged[i - 1][1])
+            if not devsteps.get(i) and nviol[0] < 5:
+                # the expectation that failed came from TLC (LTS state / query table) and no known deviation
+                # is involved: a violation seen by the replay leg (e.g. a check the trace events do not carry)
+                nviol[0] += 1
+                ctx.violation(diverged[i - 1][0], diverged[i - 1][1] + "\n(replay against TLC's expected state; the recorded "
+                              "events of the same history are explained by the specification)")
         for i in rejected[:5]:
             case, msg, t = diverged[i - 1]
             at = info.get(i, 0)
@@ -1367,7 +1382,7 @@ def run(ctx):
             ctx.sample("known-finding behaviour: " + " ; ".join(describe(s) for s in case["plan"]) + "  -> " + msg[:160])
 
     # 3. code -> spec: recorded histories validated by TLC
-    ntr, nops, maxpk = (220, 14, 12) if quick else (1600, 30, 30)
+    ntr, nops, maxpk = (180, 14, 12) if quick else (1600, 30, 30)
     batch = 400
     recorded = [record_history(rng, nops, maxpk if i % 3 else 5) for i in range(ntr)]
     plans = [p for p, _ in recorded]
@@ -1456,7 +1471,7 @@ def replay(ctx, case):
         if rejected:
             return "%s (TLC: not explained%s)" % (d[1], " even with the known deviation" if known_open else "")
         if not devsteps.get(1):
-            raise core.MachineryError("replay diverged (%s) but TraceDebtags accepts the history without deviation" % d[1])
+            return d[1]
         return None          # exactly the open known finding
     if case["kind"] == "big":
         return replay_big(case["path"], case["tables"], BigConc.from_json(case["bigconc"]), random.Random(case["seed"] + 1))
